@@ -165,6 +165,13 @@ def insertStable {α} (lt : α → α → Bool) (x : α) : List α → List α
 elements with an equal key) -/
 def sortStable {α} (lt : α → α → Bool) (l : List α) : List α := l.foldr (insertStable lt) []
 
+/-! From here on everything is parametric in `lt`, the model of `Expression.__lt__` that `Product.safe` sorts with
+(`exprLt` above for the pinned `_get_key`; `Expr.ltE` of Y0.Model.Dsl for the total structural key of the `expr`
+family's fix).  No theorem of C12 depends on which order it is. -/
+
+section
+variable (lt : Expr → Expr → Bool)
+
 /-- `Product.safe` on an iterable of expressions -/
 def productSafe (es : List Expr) : Expr :=
   let es := es.filter (fun e => !isOne e)
@@ -172,7 +179,7 @@ def productSafe (es : List Expr) : Expr :=
   else match es with
     | [] => .one
     | [e] => e
-    | es => .prod (sortStable exprLt es)
+    | es => .prod (sortStable lt es)
 
 /-- `Fraction(n, d)` with its `__post_init__` -/
 def mkFrac (n d : Expr) : E Expr :=
@@ -185,24 +192,24 @@ def mulFlat (a b : Expr) : Expr :=
   -- Probability / PopulationProbability
   | .prob .., .zero => b
   | .prob .., .one => a
-  | .prob .., .prod gs => productSafe (a :: gs)
-  | .prob .., _ => productSafe [a, b]
+  | .prob .., .prod gs => productSafe lt (a :: gs)
+  | .prob .., _ => productSafe lt [a, b]
   -- Product
   | .prod _, .zero => b
-  | .prod fs, .prod gs => productSafe (fs ++ gs)
-  | .prod fs, _ => productSafe (fs ++ [b])
+  | .prod fs, .prod gs => productSafe lt (fs ++ gs)
+  | .prod fs, _ => productSafe lt (fs ++ [b])
   -- Sum
   | .sum .., .zero => b
-  | .sum .., .prod gs => productSafe (a :: gs)
-  | .sum .., _ => productSafe [a, b]
+  | .sum .., .prod gs => productSafe lt (a :: gs)
+  | .sum .., _ => productSafe lt [a, b]
   -- One, Zero
   | .one, _ => b
   | .zero, _ => a
   -- QFactor
-  | .q .., .prod gs => productSafe (a :: gs)
-  | .q .., _ => productSafe [a, b]
+  | .q .., .prod gs => productSafe lt (a :: gs)
+  | .q .., _ => productSafe lt [a, b]
   -- (a Fraction on the left is handled by `mul`)
-  | .frac .., _ => productSafe [a, b]
+  | .frac .., _ => productSafe lt [a, b]
 
 /-- `a.__mul__(b)` for `a` not a `Fraction`: `Probability`, `Product` and `QFactor` push themselves into the
 numerator of a `Fraction` on the right (recursion on `b`); `Sum`, `One`, `Zero` have no such branch -/
@@ -210,8 +217,8 @@ def mulNF (a : Expr) : Expr → E Expr
   | .frac n d =>
     match a with
     | .prob .. | .prod _ | .q .. => do mkFrac (← mulNF a n) d
-    | _ => .ok (mulFlat a (.frac n d))
-  | b => .ok (mulFlat a b)
+    | _ => .ok (mulFlat lt a (.frac n d))
+  | b => .ok (mulFlat lt a b)
 
 /-- the `__mul__` overloads (`Fraction.__mul__` recurses on the left operand) -/
 def mul : Expr → Expr → E Expr
@@ -220,7 +227,7 @@ def mul : Expr → Expr → E Expr
     | .zero => .ok b
     | .frac n2 d2 => do mkFrac (← mul n n2) (← mul d d2)
     | _ => do mkFrac (← mul n b) d
-  | a, b => mulNF a b
+  | a, b => mulNF lt a b
 
 /-- `Expression.__truediv__`, `Fraction.__truediv__`, `Zero.__truediv__` -/
 def div (a b : Expr) : E Expr :=
@@ -228,11 +235,13 @@ def div (a b : Expr) : E Expr :=
   | .zero, .zero => .error zeroDivision
   | .zero, _ => .ok a
   | .frac .., .one => .ok a
-  | .frac n d, .frac n2 d2 => do mkFrac (← mul n d2) (← mul d n2)
-  | .frac n d, _ => do mkFrac n (← mul d b)
+  | .frac n d, .frac n2 d2 => do mkFrac (← mul lt n d2) (← mul lt d n2)
+  | .frac n d, _ => do mkFrac n (← mul lt d b)
   | _, .one => .ok a
-  | _, .frac n2 d2 => do mkFrac (← mul a d2) n2
+  | _, .frac n2 d2 => do mkFrac (← mul lt a d2) n2
   | _, _ => mkFrac a b
+
+end
 
 /-- `Sum.safe(expression, ranges)` with `ranges` already a tuple of variables; `simplify=False` -/
 def sumSafe (e : Expr) (ranges : List Var) : E Expr :=
@@ -353,6 +362,9 @@ def unop (op : UOp) : Val → E Val
   | .var v => .ok (.var (unopVar op v))
   | _ => .error (typeError "bad operand type for unary operator")
 
+section
+variable (lt : Expr → Expr → Bool)
+
 def binop (op : BOp) (a b : Val) : E Val :=
   match op with
   | .matmul =>
@@ -365,12 +377,12 @@ def binop (op : BOp) (a b : Val) : E Val :=
   | .band => andOp a b
   | .mul =>
     match a, b with
-    | .expr x, .expr y => do pure (.expr (← mul x y))
+    | .expr x, .expr y => do pure (.expr (← mul lt x y))
     | .expr _, _ => .error unsupported
     | _, _ => .error (typeError "unsupported operand type(s) for *")
   | .div =>
     match a, b with
-    | .expr x, .expr y => do pure (.expr (← div x y))
+    | .expr x, .expr y => do pure (.expr (← div lt x y))
     | .expr _, _ => .error unsupported
     | _, _ => .error (typeError "unsupported operand type(s) for /")
   | .add | .sub => .error (typeError "unsupported operand type(s) for + or -")
@@ -421,7 +433,7 @@ def eval : Ast → E Val
   | .bin op l r => do
     let a ← eval l
     let b ← eval r
-    binop op a b
+    binop lt op a b
   | .call f args => do
     let fv ← eval f
     let as ← evalList args
@@ -440,7 +452,7 @@ end
 
 /-- `parse_y0` on an AST: the result must be an `Expression` -/
 def evalExpr (a : Ast) : E Expr :=
-  match eval a with
+  match eval lt a with
   | .ok (.expr e) => .ok e
   | .ok _ => .error (.internal "result is not an expression")
   | .error e => .error e
@@ -449,7 +461,9 @@ def evalExpr (a : Ast) : E Expr :=
 def parseY0 (ts : List Tok) : E Expr :=
   match PyParse.parse ts with
   | .error e => .error (.invalidInput ("SyntaxError " ++ e))
-  | .ok a => evalExpr a
+  | .ok a => evalExpr lt a
+
+end
 
 end PyEval
 end Y0
